@@ -605,6 +605,8 @@ impl DiskCache {
 }
 
 fn crc32_from_reader(reader: &mut impl Read) -> Result<u32, ChunkCacheError> {
+    #[cfg(xet_verif)]
+    utils::verif_hooks::point("cache.crc.begin");
     const CRC_BUFFER_SIZE: usize = 4096;
     let mut buf = [0u8; CRC_BUFFER_SIZE];
     let mut hasher = crc32fast::Hasher::new();
